@@ -13,13 +13,42 @@ the real tree (see BOUND_RULE) and prints `cmp-ok` or `cmp-bad c=… bound=…`;
 (its own counts meet the bound by C06.compares_find / compares_insert / compares_remove / compares_run).  Both sides
 append their exact count as ` c=N`; it is stripped before comparison and only feeds an informational statistic."""
 
-BOUND_RULE = ("comparison bound judged by the harness on the REAL compare-call count c of every operation, n = Count() of "
-              "the real tree before the operation, E = number of stored entries whose key compares equal to the probe "
-              "(counted by a full Traverse with the uncounted comparison), slack = 2: Get and Remove c <= "
-              "2*floor(log2(n+1)) + E + 2; Insert c <= 2*floor(log2(n+1)) + 1 + 2; TraverseStartingAt and "
-              "ReverseTraverseStartingAt c <= n + 2; output `cmp-ok` or `cmp-bad c=.. bound=..` is part of the compared "
-              "line (model: constant `cmp-ok`); exact counts are not compared")
+BOUND_RULE = ("comparison bound judged by the harness on the REAL compare-call count c of every operation, n = number of "
+              "inserted-and-not-removed entries before the operation, E = number of those whose key compares equal to the "
+              "probe (n and E from the harness's own shadow record per equivalence class, independent of the library), "
+              "slack = 2: Get and Remove c <= 2*floor(log2(n+1)) + E + 2; Insert c <= 2*floor(log2(n+1)) + 1 + 2; "
+              "TraverseStartingAt and ReverseTraverseStartingAt c <= n + 2; output `cmp-ok` or `cmp-bad c=.. bound=..` is "
+              "part of the compared line (model: constant `cmp-ok`); exact counts are not compared")
 
+HARDENING = {
+    "1 numeric magnitudes": "keys and values at MinInt/MaxInt, their neighbours, MaxInt/2±1, 2^31/2^32/2^62±1, powers of "
+                            "ten ±1 (generator style `limits`, corpus (e)); probes k±1/k±10 that wrap around; compare "
+                            "results as -1/0/1, as saturating difference, as MinInt/0/MaxInt and as pseudo-random "
+                            "magnitudes (`reset <order> <style>`)",
+    "2 size thresholds": "long structured histories of 400…2000 inserts with probes (invariants, height, ends, bounded "
+                         "lookups) exactly at 12, 16/17, 32/33, 64/65, 128/129, 256/257, 512/513, 1000, 1024/1025 entries, "
+                         "also on the way down during drains",
+    "3 entry points": "New, Insert, Remove, Get, Count, Empty, First, Last, Traverse, ReverseTraverse, TraverseStartingAt, "
+                      "ReverseTraverseStartingAt and Dump (stdout captured through a pipe: one line per entry, the key "
+                      "multiset, tree unchanged) are all called",
+    "4 callback outcomes": "visitors: continue, stop after j, panic at the j-th visit with string / error / runtime "
+                           "error / typed-nil pointer / nil, read-only re-entrant (Get, Count, First from inside the "
+                           "callback) on all four traversals; compare function: panics at its first call inside Insert, "
+                           "Remove and Get (tree unchanged and usable), four result-magnitude styles",
+    "5 aliasing and reuse": "two trees per history used alternately (`swap`); the tree is used on after every panic; "
+                            "First/Last/Count after every removal (stale caches); lookup of the key just removed",
+    "6 history shapes": "drain to empty and regrow; removal of the minimum, the maximum, the only element, the same key "
+                        "twice, an absent key; drains in ascending/descending/random order; zig-zag, back-fill, "
+                        "alternating extremes, interleaved sorted blocks, bit-reversed and random long histories",
+    "7 oracle independence": "results are judged by the Lean model; n and E of the comparison bound and the key multiset "
+                             "Dump must print come from the harness's own record, not from Count()/Traverse; the "
+                             "invariant check walks the real nodes itself (overlay) and uses only the user's compare",
+    "8 hangs and crashes": "every operation has a deadline of 2 x 1 s (CPU-time aware, so an overloaded machine is not "
+                           "mistaken for a hang); a hang ends the history, two hangs end the stream; panics are outputs",
+    "9 no false alarms": "exact compare counts are stripped on both sides; node shape (`dump`) is a model-only "
+                         "observable; compare panics are placed only at the first call (independent of the exact number "
+                         "of calls); controls control-c06-1/2 stay silent",
+}
 
 def _tag(line, out):
     w = line.split(" ", 1)[0]
@@ -29,6 +58,18 @@ def _tag(line, out):
         return "rem:" + out.split(" ", 1)[0]
     if w in ("travfrom", "rtravfrom", "trav", "rtrav") and out.startswith("-"):
         return w + ":nothing-visited"
+    if w in ("ptrav", "prtrav", "ptravfrom", "prtravfrom"):
+        return "visitor:" + line.rsplit(" ", 1)[1] + ":" + out.rsplit(" ", 1)[1]
+    if w in ("pins", "prem", "pget"):
+        return w + (":cmp-panic" if out == "cmp-panic" else ":empty-tree")
+    if w == "reset":
+        return "reset:" + line.split(" ", 1)[1]
+    if w == "count":
+        n = int(out.split(" ", 1)[0])
+        for lim in (0, 1, 11, 16, 32, 64, 128, 256, 512, 1024):
+            if n <= lim:
+                return "count<=%d" % lim
+        return "count>1024"
     if w == "dump":
         n = out.count("(")
         for lim in (0, 1, 7, 31, 127):
@@ -87,7 +128,10 @@ def run(ctx):
         "(overlay dump bit `parents=ok` and op `inv`)",
         "Go `compare` returns int; the model takes an Ordering-valued compare (the code only inspects the sign; the "
         "harness returns arbitrary magnitudes in div10 mode)",
-        "Tree.Dump (prints to stdout for debugging) is not modelled",
+        "Tree.Dump (prints to stdout for debugging) is modelled only as: one line per entry, the stored key multiset, "
+        "tree unchanged",
+        "a panic inside a visitor is modelled as the visitor returning false at that visit (the library has no recover); "
+        "a compare function that panics at its first call abandons Insert/Remove/Get before any modification",
     ]
     ctx.assumptions += ["the compare function is a total preorder (structure RB.TotalPreorder) and has no side effects "
                         "other than being counted"]
@@ -98,7 +142,7 @@ def run(ctx):
     # pass A: observable behaviour only (node dumps reduced to the parent-link bit), so that a behavioural difference
     # is minimised and reported as such, with its concrete failing history, and is not crowded out by the shape
     # differences (model-only observable) that usually precede it in the same history
-    ctx.diff(n={"quick": 500000, "thorough": 3000000}, canon=_behaviour_only, tagger=_tag,
+    ctx.diff(n={"quick": 500000, "thorough": 3000000}, canon=_behaviour_only,
              theorem="C06.inorder_run / remove_inorder / queries_run / traverseFrom_run / count_run / run_inv / "
                      "compares_run are theorems about the model RB.Tree; the implementation differs from the model on "
                      "this history (or exceeds the comparison bound: cmp-bad, or breaks an invariant: inv)",
@@ -107,13 +151,14 @@ def run(ctx):
              **common)
     # pass B: the same plus node shape and colours (op `dump`, model-only observable)
     stats = _CountStats()
-    ctx.diff(n={"quick": 1000000, "thorough": 16000000}, canon=stats,
+    ctx.diff(n={"quick": 1000000, "thorough": 16000000}, canon=stats, tagger=_tag,
              theorem="C06.height_run / run_inv hold for the model, whose shape the implementation is expected to share; "
                      "the implementation's shape (or result, or comparison-bound verdict) differs from the model on "
                      "this history",
              what="results, comparison-bound verdict and node shape/colours of redblack.Tree vs the Lean model; "
                   + BOUND_RULE, **common)
     ctx.rules.append(BOUND_RULE)
+    ctx.extra["hardening_audit"] = HARDENING
     ctx.extra["exact_compare_counts_informational"] = dict(
         stats.stats, note="real vs model number of compare calls per ins/rem/get/travfrom/rtravfrom line of pass B; "
                           "not part of the verdict")
